@@ -1,15 +1,15 @@
 (* line protocol (one answer line per request line):
    name <vendor> <model> <idtype> <ridhex|-> <fwhex|-> <caps:0|1> <ident:0|1>
         -> "ok name=<hex> v=<n> m=<n> fw=<hex|->"  |  "none"
-   run <dl> <dial> <rd|-> <send> <fc:0|1> P <scanport> D <n> {<host> <port|0=no address> <up|down|unknown> <namehex>}*n
+   run <dl> <dial> <rd|-> <send> <fc:0|1> <idle:0|1> P <scanport> D <n> {<host> <port|0=no address> <up|down|unknown> <namehex>}*n
                                  H <k> {<addr> <behaviour> <vendor> <model> <idtype> <ridhex|->}*k
                                  W <w> {<len> <addr>*len}*w
         -> "probed=<a,..> reported=<namehex@a,..> discovered=<namehex@a,..> time=<n|never>"
         behaviours: refuse unreachable silent garbage stallneg stallex noclose answer noident
         (firmware of every answering host is "1.2.3"), or a script
           script:d=<r|n|delay>:h=<ans>:v=<ans>:sv=<ans|n>:c=<ans>:id=<0|1>:k=<ans>:x=<ans>:xo=<0|1>:fin=<0|1>:hg=<t|->:chat=<t_t_..|->:p=<period|->
-          <ans> = <delay>+ (positive answer) | <delay>- (negative answer) | - (none);  sv=n: no SET_PROTOCOL_VERSION
-        fc: the request goroutine closes the client after a failed Shutdown
+          <ans> = <delay>+ (positive answer) | <delay>- (negative answer) | - (none) | <gap>~ (trickled, never complete);  sv=n: no SET_PROTOCOL_VERSION
+        fc: the request goroutine closes the client after a failed Shutdown; idle: the read deadline is re-armed before every read
    conf <cfg> {D:<cfg> | X | R}*      cfg = <subnets hex|->/<async>/<probe_s>/<port>/<max_s>
         a history: start-up configuration, then deliveries (D), deliveries of another type (X), runs (R)
         -> "inforce=<cfg> deadline=<ms|none> used=<cfg,..  oldest run first>" *)
@@ -33,6 +33,7 @@ let fw_default = codes_of_string "1.2.3"
 let answer_of s =
   if s = "-" then NoAns else
     let n = String.length s in
+    if s.[n - 1] = '~' then Trickle (n_of_int (int_of_string (String.sub s 0 (n - 1)))) else
     Ans (n_of_int (int_of_string (String.sub s 0 (n - 1))), s.[n - 1] = '+')
 
 let script_of spec caps ident =
@@ -76,7 +77,7 @@ let () =
           | None -> print_endline "none"
           | Some i -> Printf.printf "ok name=%s v=%d m=%d fw=%s\n" (hex_of_codes i.i_name) (int_of_n i.i_vendor)
                         (int_of_n i.i_model) (hex_of_codes i.i_fw))
-       | "run" :: dl :: dial :: rd :: send :: fc :: "P" :: sport :: "D" :: rest ->
+       | "run" :: dl :: dial :: rd :: send :: fc :: idle :: "P" :: sport :: "D" :: rest ->
          let a = Array.of_list rest in
          let pos = ref 0 in
          let next () = let x = a.(!pos) in incr pos; x in
@@ -107,7 +108,7 @@ let () =
              List.init len (fun _ -> n_of_int (int_of_string (next ())))) in
          let tm = { dial = n_of_int (int_of_string dial);
                     read_deadline = (if rd = "-" then None else Some (n_of_int (int_of_string rd)));
-                    send_timeout = n_of_int (int_of_string send); force_close = (fc = "1") } in
+                    send_timeout = n_of_int (int_of_string send); force_close = (fc = "1"); idle_deadline = (idle = "1") } in
          let dl = n_of_int (int_of_string dl) in
          let dm = make_device_map devs in
          let sport = n_of_int (int_of_string sport) in
